@@ -2,7 +2,7 @@
     expansion.  All statements are in partial-correctness form over the fuel ("whenever the function
     returns, ..."); Py/Termination.v shows that enough fuel always exists. *)
 From Coq Require Import NArith List Bool Lia.
-From Pi2 Require Import ML.Syntax Py.Pattern Py.PatFacts.
+From Pi2 Require Import ML.Syntax Py.Pattern Py.PatFacts Py.MetaFacts.
 Import ListNotations.
 Open Scope N_scope.
 
@@ -16,6 +16,8 @@ Tactic Notation "bind_inv" hyp(H) "as" ident(a) ident(Ha) :=
 Section WithFlags.
 Variable f : pyflags.
 
+Lemma p_inst_nonnil t s : isnil s = false -> p_inst f t s = p_inst' f t s.
+Proof. unfold p_inst. intros ->. reflexivity. Qed.
 Lemma expand_delta_alookup k d : alookup k (expand_delta f d) = option_map (expand f) (alookup k d).
 Proof. apply (alookup_amap (expand f)). Qed.
 Lemma expand_delta_app a b : expand_delta f (a ++ b) = expand_delta f a ++ expand_delta f b.
@@ -87,10 +89,29 @@ Proof.
         { inversion H; subst. reflexivity. }
         bind_inv H as q' Hq. bind_inv H as g' Hg. simpl isnil. cbv iota.
         rewrite (IHs _ _ _ _ H), (IHi _ _ _ Hq), (IHi _ _ _ Hg). reflexivity.
-      * bind_inv H as d'' Hd. rewrite Hext in H. inversion H; subst; clear H.
+      * rewrite Hext in H. destruct d0 as [|kv0 d0'].
+        { (* empty inst: the pattern itself is instantiated *)
+          simpl isnil in H. cbv iota in H. bind_inv H as q' Hq. inversion H; subst; clear H.
+          rewrite !expand_inst. simpl expand_delta. rewrite !p_inst_nil. apply (IHi _ _ _ Hq). }
+        remember (kv0 :: d0') as d1 eqn:Ed1.
+        assert (Hnn : isnil d1 = false) by (subst d1; reflexivity).
+        rewrite Hnn in H. bind_inv H as d'' Hd. inversion H; subst r; clear H.
         rewrite !expand_inst, expand_delta_app.
         rewrite (map_opt_inst _ _ _ _ IHi Hd).
-        rewrite (p_inst_comp f Hkeep), expand_delta_unshadowed. reflexivity.
+        rewrite (p_inst_comp f Hkeep).
+        assert (Hne : forall (l:list (N*pat)),
+                   isnil (amap (fun v => p_inst f v (expand_delta f d)) (expand_delta f d1) ++ l) = false).
+        { intro l. subst d1. reflexivity. }
+        rewrite (p_inst_nonnil (expand f p) _ (Hne _)), (p_inst_nonnil (expand f p) _ (Hne _)).
+        apply p_inst'_agree. intros k Hk.
+        rewrite !alookup_app.
+        destruct (alookup k (amap (fun v => p_inst f v (expand_delta f d)) (expand_delta f d1))); [reflexivity|].
+        change (alookup k (amap (expand f) (filter (fun kv => mem (fst kv) (metavars p)) (unshadowed d d1)))
+                = alookup k (unshadowed (expand_delta f d) (expand_delta f d1))).
+        rewrite <- expand_delta_unshadowed. change (expand_delta f (unshadowed d d1)) with (amap (expand f) (unshadowed d d1)).
+        rewrite !alookup_amap.
+        rewrite (alookup_filter_key (fun k0 => mem k0 (metavars p))); [reflexivity|].
+        apply mem_In. apply (metavars_incl f). exact Hk.
     + (* py_esubst *)
       intros p x g r H. destruct p; simpl in H.
       * inversion H; subst. simpl. destruct (N.eqb x n0); reflexivity.
